@@ -333,6 +333,31 @@ def run(ctx):
                   msg=f"{uid}: an exception while processing one command ends the loop ({sorted(set(dead))[:2]}): no later task.cancel / task.unique / shutdown wait is ever served "
                   f"(callers asking to be cancelled sleep for ever)", key="service loop survives", node=program.func(uid), rel="function.py")
 
+    ctx.rule("R14.15", "the reaper and waiter loops outlive the tasks they wait for: awaiting a task that ends cancelled (a shutdown run that cancels itself, the task the "
+             "reaper has just cancelled) raises CancelledError in the loop, so each such await collects it (gather(return_exceptions=True)) or sits in a handler that "
+             "absorbs it - otherwise the loop dies and every later unload/reload waits for ever", floor=2)
+    for uid in ("function.py::Function.init.task_reaper", "function.py::Function.init.task_waiter"):
+        f = program.func(uid)
+        found = task_awaits(f)
+        for n, ok in found:
+            ctx.check(ok, "R14.15", uid, f"`{short(n)}` does not end the loop when the awaited task was cancelled",
+                      msg=f"{uid}: `{short(n)}` raises CancelledError in the service loop when an awaited task ends cancelled, and the nearest handler re-raises it: the loop ends, "
+                      f"pending and later requests (waiter_sync at unload/reload/shutdown) are never answered", key=f"await of tasks {norm(n.value)[:40]}", node=n, rel="function.py")
+        if not found:
+            raise AnalysisError(f"R14.15: {uid} awaits no task any more")
+
+    ctx.rule("R14.16", "a service call waits for its run without sharing its fate: the handler awaits the run's task in a way that does not re-raise the run's cancellation "
+             "(task.cancel / task.unique inside the service function) in the caller - a script that called the service with blocking=True would be terminated with it", floor=2)
+    for uid in ("eval.py::EvalFunc.trigger_init.pyscript_service_factory.pyscript_service_handler", "decorators/service.py::ServiceDecorator._service_callback"):
+        f = program.func(uid)
+        found = task_awaits(f)
+        for n, ok in found:
+            ctx.check(ok, "R14.16", uid, f"`{short(n)}` keeps the run's cancellation out of the caller",
+                      msg=f"{uid}: `{short(n)}` re-raises the CancelledError of the run's own task in the task that called the service: a run that is cancelled terminates the run "
+                      f"that called it", key="service handler awaits its run", node=n, rel=uid.split("::")[0])
+        if not found:
+            ctx.ok("R14.16", uid, "the handler does not wait for the run")
+
     ctx.rule("R14.6", "task.cancel hands a task to the reaper only when its wrapper has registered it (a task cancelled before its first step never runs its cleanup)", floor=8)
     cancel_table(ctx, program, "R14.6")
 
@@ -494,3 +519,30 @@ def callback_mutation_table(ctx, program, rid, only=None):
                 "raise-last": "the last callback raises"}[mutate]
         ctx.check(bool(ex) and bad is None, rid, RUN_CORO, f"three done callbacks, {what}", msg=f"run_coro with three done callbacks where {what}: {bad or 'no exit'} - "
                   f"the remaining callbacks are skipped and the task ends with an exception", key=f"callback mutation {mutate}", node=fn, rel="function.py")
+
+
+def task_awaits(f):
+    """(await node, protected?) for every await of task objects in f: protected when the awaited tasks' cancellation is collected (asyncio.wait, gather(return_exceptions=True))
+    or absorbed by the nearest CancelledError handler."""
+    res = []
+    for n in body_walk(f):
+        if not isinstance(n, ast.Await):
+            continue
+        v = n.value
+        is_gather = isinstance(v, ast.Call) and call_name(v) in ("asyncio.gather", "asyncio.wait")
+        if not (is_gather or not isinstance(v, ast.Call)):
+            continue
+        collected = is_gather and (call_name(v) == "asyncio.wait" or any(k.arg == "return_exceptions" and isinstance(k.value, ast.Constant) and k.value.value is True for k in v.keywords))
+        absorbed = None
+        cur = n
+        while cur is not f and absorbed is None:
+            par = parent(cur)
+            if isinstance(par, ast.Try) and any(cur is s or any(cur is d for d in ast.walk(s)) for s in par.body):
+                for h in par.handlers:
+                    names = norm(h.type) if h.type is not None else "BaseException"
+                    if "CancelledError" in names or "BaseException" in names:
+                        absorbed = not any(isinstance(x, ast.Raise) for s in h.body for x in ast.walk(s))
+                        break
+            cur = par
+        res.append((n, bool(collected or absorbed is True)))
+    return res
